@@ -1,4 +1,5 @@
 import LenaModel.Model.C08
+import LenaModel.Model.C08Spec
 /-! # C08 — lemmas about `format_context`: the brace checks, the de-doubling, the scanner and
 `str.format`, on templates given as pieces at the level of characters -/
 namespace Lena.C08
@@ -146,22 +147,11 @@ theorem scan_total : ∀ (s : List Char) (m : Mode), BracesClosed s →
 
 /-! ## templates as pieces of characters -/
 
-/-- a literal text or a field name, as characters -/
-inductive TP where
-  | lit (l : List Char)
-  | fld (name : List Char)
-
 /-- a literal has no brace; a field name has no opening brace and none of the characters `}!:` that end
 a field for the scanner -/
 def TP.Ok : TP → Prop
   | .lit l => ∀ c ∈ l, c ≠ '{' ∧ c ≠ '}'
   | .fld n => ∀ c ∈ n, c ≠ '{' ∧ isTerm c = false
-
-/-- the template as the user writes it: a field is `{{name}}` -/
-def render0 : List TP → List Char
-  | [] => []
-  | .lit l :: r => l ++ render0 r
-  | .fld n :: r => '{' :: '{' :: (n ++ '}' :: '}' :: render0 r)
 
 /-- after `.replace("{{", "{")` -/
 def render1 : List TP → List Char
